@@ -45,6 +45,7 @@ type c10wheel struct {
 	base   int
 	n      int
 	closed bool
+	gate   chan struct{} // non-nil: callbacks block here until the behaviour is over (gated mode)
 }
 
 const c10Interval = time.Second // only a unit: the ticker is driven by hand
@@ -53,6 +54,9 @@ func newC10Wheel(n int) (*c10wheel, error) {
 	cw := &c10wheel{tk: newVTicker(), n: n}
 	cw.base = runtime.NumGoroutine()
 	w, err := newTimingWheelWithClock(c10Interval, n, func(k, v any) {
+		if cw.gate != nil {
+			<-cw.gate
+		}
 		cw.mu.Lock()
 		cw.fired = append(cw.fired, c10pair{fmt.Sprint(k), v.(int)})
 		cw.mu.Unlock()
@@ -257,6 +261,77 @@ func runC10Case(c kit.Case, n int) (v kit.Verdict) {
 	return v
 }
 
+// runC10Gated executes a behaviour with SLOW callbacks: every execute callback blocks until the
+// last tick of the behaviour has been processed, so the goroutine that runs the tasks of tick n
+// is still busy while later ticks fire.  Tick attribution is not observable then; what is
+// compared is the statement's core: every task the specification fires is executed exactly
+// once, with the value most recently set, and nothing else is executed.
+func runC10Gated(c kit.Case, n int) (v kit.Verdict) {
+	v = kit.Verdict{Case: c.Index, OK: true}
+	for _, st := range c.Steps {
+		if op := kit.Str(st["op"]); op == "stop" || op == "drain" {
+			return v // shutdown behaviours are replayed by the ordinary mode only
+		}
+	}
+	cw := &c10wheel{tk: newVTicker(), n: n, gate: make(chan struct{})}
+	cw.base = runtime.NumGoroutine()
+	w, err := newTimingWheelWithClock(c10Interval, n, func(k, val any) {
+		<-cw.gate
+		cw.mu.Lock()
+		cw.fired = append(cw.fired, c10pair{fmt.Sprint(k), val.(int)})
+		cw.mu.Unlock()
+	}, cw.tk)
+	if err != nil {
+		return kit.Verdict{Case: c.Index, Infra: true, Msg: err.Error()}
+	}
+	cw.w = w
+	cw.base++
+	var want []c10pair
+	barrier := func() error { return cw.w.RemoveTimer("\x00barrier") } // run loop is sequential
+	for _, st := range c.Steps {
+		op := kit.Str(st["op"])
+		for _, w := range kit.List(st["pre"]) {
+			select {
+			case cw.tk.c <- time.Time{}:
+			case <-time.After(5 * time.Second):
+				return kit.Verdict{Case: c.Index, Infra: true, Msg: "tick not accepted by the run loop"}
+			}
+			if err := barrier(); err != nil {
+				return kit.Verdict{Case: c.Index, Infra: true, Msg: err.Error()}
+			}
+			for _, e := range kit.List(w) {
+				m := e.(map[string]any)
+				want = append(want, c10pair{kit.Str(m["k"]), kit.Num(m["v"])})
+			}
+			v.Steps++
+		}
+		k, d := kit.Str(st["k"]), time.Duration(kit.Num(st["d"]))*c10Interval
+		switch op { // invalid-argument operations have no effect and are not repeated here
+		case "set":
+			err = cw.w.SetTimer(k, kit.Num(st["v"]), d)
+		case "move":
+			err = cw.w.MoveTimer(k, d)
+		case "remove":
+			err = cw.w.RemoveTimer(k)
+		}
+		if err != nil {
+			return kit.Verdict{Case: c.Index, Infra: true, Msg: "gated " + op + ": " + err.Error()}
+		}
+	}
+	close(cw.gate)
+	cw.w.Stop()
+	<-cw.tk.stopped
+	cw.base--
+	if !kit.WaitGoroutines(cw.base, 10*time.Second) {
+		return kit.Verdict{Case: c.Index, Infra: true, Msg: "gated callbacks did not finish\n" + kit.Stacks()}
+	}
+	if g, w := canonPairs(cw.take()), canonPairs(want); g != w {
+		v.OK, v.Key = false, "C10:slow-callbacks:executed-set"
+		v.Msg = fmt.Sprintf("N=%d with callbacks that are still running while later ticks fire: executed {%s}, specification fires {%s}", n, g, w)
+	}
+	return v
+}
+
 func TestVerifC10(t *testing.T) {
 	rep, err := kit.NewReporter(kit.Env("VERIF_OUT", ""))
 	if err != nil {
@@ -264,8 +339,13 @@ func TestVerifC10(t *testing.T) {
 	}
 	defer rep.Close()
 	n := kit.EnvInt("VERIF_SLOTS", 3)
+	gated := kit.EnvInt("VERIF_GATED", 0) == 1
 	if err := kit.StreamCases(kit.Env("VERIF_CASES", ""), func(c kit.Case) error {
-		rep.Put(runC10Case(c, n))
+		if gated {
+			rep.Put(runC10Gated(c, n))
+		} else {
+			rep.Put(runC10Case(c, n))
+		}
 		return nil
 	}); err != nil {
 		t.Fatal(err)
